@@ -92,19 +92,26 @@ def corr_fails(prog) -> bool:
 def _worker(args):
     """runs in a forked worker: generate, execute on the implementation, run the property's oracle"""
     seed, idx, gen_kw, oracle_name, prop = args
+    gen_kw = dict(gen_kw)
+    guard_off = gen_kw.pop("_guard_off", False)  # run the implementation (and the oracle) with memory guarding off
     rng = random.Random(f"{seed}:{prop}:{idx}")
     prog = progs.gen_program(rng, **gen_kw)
-    real, ex = progs.run_real(prog)
-    fails = []
-    if oracle_name is not None:
-        import importlib
+    import contextlib
 
-        mod = importlib.import_module(f"harness.props.{prop.lower()}")
-        try:
-            fails = getattr(mod, oracle_name)(prog, idx) or []
-        except Exception as e:  # an oracle crash is an infrastructure problem, surfaced loudly
-            fails = [("ORACLE-CRASH", f"{type(e).__name__}: {e}")]
-    del ex
+    import mygrad as mg
+
+    with (mg.mem_guard_off if guard_off else contextlib.nullcontext()):
+        real, ex = progs.run_real(prog)
+        fails = []
+        if oracle_name is not None:
+            import importlib
+
+            mod = importlib.import_module(f"harness.props.{prop.lower()}")
+            try:
+                fails = getattr(mod, oracle_name)(prog, idx) or []
+            except Exception as e:  # an oracle crash is an infrastructure problem, surfaced loudly
+                fails = [("ORACLE-CRASH", f"{type(e).__name__}: {e}")]
+        del ex
     return {"idx": idx, "prog": prog, "real": real, "fails": fails}
 
 
